@@ -71,6 +71,19 @@ func checkCase(c Case) (out evid.Outcome) {
 			rs := &regState{m: op.M, r: op.R, leaves: map[string]route.Leaf{}}
 			perr := func() (err interface{}) {
 				defer func() { err = recover() }()
+				hf := func(ctx flamego.Context) {
+					ran = idx
+					got = map[string]string{}
+					for k, v := range ctx.Params() {
+						got[k] = v
+					}
+					ctx.ResponseWriter().WriteHeader(200)
+				}
+				if strings.Contains(op.M, ",") {
+					// a comma list goes through Routes()
+					rs.fr = f.Routes(op.R, op.M, hf)
+					return nil
+				}
 				rs.fr = f.Route(op.M, op.R, []flamego.Handler{func(ctx flamego.Context) {
 					ran = idx
 					got = map[string]string{}
@@ -271,7 +284,7 @@ func genCase(t *rapid.T) Case {
 	g := model.NewRegistrar()
 	type have struct{ m, r string }
 	var regs []have
-	methods := []string{"GET", "GET", "GET", "POST", "*", "get"}
+	methods := []string{"GET", "GET", "GET", "POST", "*", "get", "get,post", "GET, PUT"}
 	n := rapid.IntRange(3, 25).Draw(t, "nops")
 	lit := func() model.Seg {
 		return model.Seg{Elems: []model.Elem{{Lit: staticLits[rapid.IntRange(0, len(staticLits)-1).Draw(t, "sl")]}}}
